@@ -163,6 +163,23 @@ SysSol(sys) == IF Len(sys) = 1 THEN LineSol(sys[1], PtIds)
                ELSE LineSol(sys[2], LineSol(sys[1], PtIds))
 SolDefsAgree == Mode = "sys" => SysSol(prog) = SysSolPointwise(prog)
 
+(* The CRITICAL SET of a single-factor line: the points (where it is defined)  *)
+(* at which the factor x_j, the factor's co-factor v.x + c or the plain side   *)
+(* w.x + d vanishes.  Bringing such a line into isolated form multiplies or    *)
+(* divides by one of these quantities; a case split on their STRICT signs      *)
+(* (> 0, < 0) says nothing about these points.  It is printed so that the      *)
+(* harness can tell "solutions lost only inside the critical set" (the zero    *)
+(* case of a sign split is missing) from any other disagreement.  It is not    *)
+(* used to weaken the comparison: Sol must be matched on the whole grid.       *)
+LineCrit(ln) ==
+  IF ln.f = "lin" THEN {}
+  ELSE LET il == IntLine(ln)
+       IN  {k \in PtIds : /\ (ln.f = "div" => Pts[k][il.j] # 0)
+                          /\ \/ Pts[k][il.j] = 0
+                             \/ AffI(il.a, il.ac, Pts[k]) = 0
+                             \/ AffI(il.b, il.bc, Pts[k]) = 0}
+SysCrit(sys) == UNION {LineCrit(sys[l]) : l \in 1..Len(sys)} \ SysUndef(sys)
+
 (* integer rows: row.x in half units against 2*rhs *)
 Dot(row, p) == LET t(j) == IF j <= NV THEN row[j] * p[j] ELSE 0 IN t(1) + t(2) + t(3)   \* rows have NV entries
 MatSol(m) == {k \in PtIds :
@@ -176,6 +193,7 @@ BndSol(bd) == {k \in PtIds : \A j \in 1..NV :
 
 Sol(p) == CASE Mode = "sys" -> SysSol(p) [] Mode = "mat" -> MatSol(p) [] Mode = "bnd" -> BndSol(p)
 Undef(p) == IF Mode = "sys" THEN SysUndef(p) ELSE {}
+Crit(p) == IF Mode = "sys" THEN SysCrit(p) ELSE {}
 
 -----------------------------------------------------------------------------
 (* constructors of the class (used by the MC_* wrappers to build Base) *)
@@ -327,5 +345,5 @@ FlipRule ==
 ASSUME PrintT(<<"@@", ToJson([hdr |-> TRUE, mode |-> Mode, nv |-> NV, coords |-> Coords,
                                npts |-> NPts, nbase |-> Len(BaseSeq), stride |-> Stride, offset |-> Offset])>>)
 
-Emit == PrintT(<<"@@", ToJson([p |-> prog, rw |-> hist, sol |-> sol, und |-> und])>>)
+Emit == PrintT(<<"@@", ToJson([p |-> prog, rw |-> hist, sol |-> sol, und |-> und, crit |-> Crit(prog)])>>)
 =============================================================================
